@@ -73,6 +73,32 @@ def rule_window(report, prog):
     # the send_window_slots property is evaluated in R4
 
 
+def rule_recv_buffer(report, prog):
+    """The receive queue of a data link connection holds as many I PDUs as the receive window it announces (RW in CONNECT / CC):
+    wherever recv_win is set, recv_buf is set to the same value (enqueue() discards silently when the queue is full)."""
+    c = prog.cls(DLC)
+    n = 0
+    for m in c.methods.values():
+        for st in walk_no_nested(m.node):
+            if isinstance(st, ast.Assign) and any(norm(t) == 'self.recv_win' for t in st.targets):
+                n += 1
+                blk = getattr(st, '_parent', None)
+                sib = []
+                for fld in ('body', 'orelse', 'finalbody'):
+                    b = getattr(blk, fld, None)
+                    if isinstance(b, list) and st in b:
+                        sib = b
+                okk = any(isinstance(x, ast.Assign) and any(norm(t) == 'self.recv_buf' for t in x.targets) and
+                          norm(x.value) in (norm(st.value), 'self.recv_win') for x in sib)
+                report.check(okk, 'C05-R1', key(m.qname, 'receive buffer follows the receive window', st), m.loc(st),
+                             '%s sets the receive window (%s) without giving the receive queue the same room: in-window I PDUs are discarded '
+                             'after V(R) advanced' % (m.qname, norm(st)))
+    report.floor('C05-R1 recv_win', n, 2)
+    f = prog.func(TCO + '.enqueue')
+    okk = any(isinstance(i, ast.If) and norm(i.test) == 'len(self.recv_queue) < self.recv_buf' for i in ast.walk(f.node))
+    report.check(okk, 'C05-R1', key(f.qname, 'receive queue bounded by recv_buf'), f.loc(), 'receive queue bound changed')
+
+
 def rule_miu(report, prog):
     for q, guard, create_text in ((DLC + '.send', 'len(message) > self.send_miu', 'pdu.Information('),
                                   (LDL + '.sendto', 'len(message) > self.send_miu', 'pdu.UnnumberedInformation(')):
@@ -282,6 +308,12 @@ def rule_fifo(report, prog):
                         # requeue of the PDU popped in the same function
                         okk = m.qname == TCO + '.dequeue' and norm(call.args[0]) == 'send_pdu' \
                             and bool(find(m.node, 'send_pdu = self.send_queue.popleft()'))
+                    if op == 'append' and call.args:
+                        # putting back what was taken from the head of the same queue must go to the head again
+                        qn = norm(call.func.value)
+                        popped = [st for st in walk_no_nested(m.node) if isinstance(st, ast.Assign) and norm(st.value) == qn + '.popleft()' and
+                                  norm(st.targets[0]) == norm(call.args[0])]
+                        okk = not popped
                     report.check(okk, 'C05-R7', key(m.qname, 'FIFO queue operation', call), m.loc(call),
                                  'queue operation %s breaks first-in-first-out delivery' % norm(call))
     report.floor('C05-R7', n, 20)
@@ -289,6 +321,7 @@ def rule_fifo(report, prog):
 
 def run(report, prog, tier):
     rule_window(report, prog)
+    rule_recv_buffer(report, prog)
     rule_miu(report, prog)
     rule_miu_writes(report, prog)
     rule_sequence(report, prog)
